@@ -7,6 +7,13 @@
 (*   T.par[n] = parent class of class n (0 for the root = the real style    *)
 (*   class KittyImage / ITerm2Image), or the class of instance n.           *)
 (*   Parents precede children (T.par[n] < n); node 1 is the only root.      *)
+(*   T.dm[n] = 1: class n is DECLARED with a metaclass derived from its      *)
+(*   parent's metaclass (legitimate for a style subclass; its own subclasses *)
+(*   inherit that metaclass).  No operator below reads T.dm: every setting   *)
+(*   resolves along the CLASS ancestry only, and the global one is shared by *)
+(*   all classes whatever their metaclass.  The field exists so that model   *)
+(*   trees / recorded trees name such classes and the real-code side builds  *)
+(*   them.                                                                   *)
 (*                                                                         *)
 (* Settings: rm = class-wide / instance render method (set_render_method),  *)
 (*           fs = forced_support, jq = jpeg_quality, rf = read_from_file,   *)
@@ -63,6 +70,8 @@ WellFormedTree(T) ==
   /\ T.nc >= 1 /\ T.nc <= Len(T.par)
   /\ T.par[1] = 0
   /\ \A n \in 2..Len(T.par) : T.par[n] \in 1..(n - 1) /\ IsClass(T, T.par[n])
+  /\ Len(T.dm) = Len(T.par)
+  /\ \A n \in 1..Len(T.par) : T.dm[n] \in {0, 1} /\ (T.dm[n] = 1 => n # 1 /\ IsClass(T, n))
 
 RECURSIVE Anc(_, _)
 Anc(T, n) == IF T.par[n] = 0 THEN {} ELSE {T.par[n]} \cup Anc(T, T.par[n])
